@@ -48,14 +48,14 @@ func runC11(c *core.Ctx) error {
 		b.Close()
 		c.Sample(map[string]any{"reference_schema": text})
 		k, kmut := c.Pick(1, 2), c.Pick(1, 1)
-		if err := runCorpusTL1(c, "C11", cp, k, kmut, 0, c.Pick(1, 2), 0, 0); err != nil {
+		if err := runCorpusTL1(c, "C11", cp, k, kmut, 0, c.Pick(1, 2), c.Pick(1, 2), 0); err != nil {
 			return fmt.Errorf("%v\nschema:\n%s", err, text)
 		}
 	}
 	if c.Get("schemas_accepted") == 0 {
 		return fmt.Errorf("vacuous: the generator accepted none of %d reference schemas", nSchemas)
 	}
-	c.Set("rule", "random TL1 schemas (structs with masks, sizes, vectors, tuples, Maybe, unions, enums, dictionaries, bare/boxed references, functions) rendered by the harness; their instance graph is resolved by the harness itself; TLC walks the value graph, byte mutations and non-minimal TL2 re-encodings over that graph; a case = one distinct TLC state")
+	c.Set("rule", "random TL1 schemas (structs with masks, sizes, vectors, tuples, Maybe, unions, enums, dictionaries, bare/boxed references, functions) rendered by the harness; their instance graph is resolved by the harness itself; TLC walks the value graph, TL1 and TL2 byte mutations (accept/reject, consumption and decoded value against the reference readers Dec1 / Dec2) and non-minimal TL2 re-encodings over that graph; a case = one distinct TLC state")
 	c.Assume("every generated constructor has an explicit tag (implicit CRC32 tags are C23's subject)")
 	return nil
 }
